@@ -385,4 +385,9 @@ theorem push_event_spans_ordered_for_every_text (k : InKind) (cap : Nat) (text :
   · rw [e]; exact ⟨token_spans_ordered k cap text sfuel t ht, token_span_lines_ordered k cap text sfuel t ht⟩
   · rw [e]; exact ⟨Nat.le_refl _, Nat.le_refl _⟩
 
+/-- the line of the scanner's mark never decreases either (every state, input and back-end) -/
+theorem scanner_line_never_decreases (s : Sc) (r : Option Token) (s' : Sc) (h : nextToken s = .ok (r, s')) :
+    s.mark.line ≤ s'.mark.line :=
+  ML.nextToken.out s r s' h
+
 end SaphyrModel.C12
